@@ -65,3 +65,17 @@ Theorem C05_interpreter_natural (O : qops) (A : Type) (body : list stmt) (rho : 
   run O body rho obs kerr = match run_out O body rho with ONorm rho' r => obs rho' r | OErr m => kerr m end.
 Proof. exact (run_natural O body rho obs kerr). Qed.
 Print Assumptions C05_interpreter_natural.
+
+(* percentage() of layout/percent.py, regenerated from the source: what resolve_percentages feeds into the width
+   equation above.  dim v u is the computed Dimension(v, u). *)
+Require WV.gen.GenPercent WV.proofs.C05_percentage.
+Theorem C05_percentage_resolution (v r : Q) (refer : val) :
+  let body := GenPercent.percentage_body in
+  let dim := C05_percentage.dim in
+  run real_ops body [("value", VNone); ("refer_to", refer)] (fun _ res => res = Some VNone) (fun _ => False) /\
+  run real_ops body [("value", VStr "auto"); ("refer_to", refer)] (fun _ res => res = Some (VStr "auto")) (fun _ => False) /\
+  run real_ops body [("value", dim v "px"); ("refer_to", refer)] (fun _ res => res = Some (VNum v)) (fun _ => False) /\
+  run real_ops body [("value", dim v "%"); ("refer_to", VNum r)]
+    (fun _ res => exists x, res = Some (VNum x) /\ x == r * v / 100) (fun _ => False).
+Proof. exact (C05_percentage.percentage_spec v r refer). Qed.
+Print Assumptions C05_percentage_resolution.
